@@ -7,6 +7,7 @@ package main
 
 import (
 	"fmt"
+	"strings"
 
 	"github.com/tink-crypto/tink-go/v2/aead"
 	"github.com/tink-crypto/tink-go/v2/daead"
@@ -258,6 +259,12 @@ func (e *engine) poolPrim(pool *kslib.Pool, idx int, class string, pt tinkpb.Out
 	if slow {
 		src.lays = layouts()[:2]
 		src.msgs = 1
+		if class == "signer" && strings.Contains(pk.Name, "128s") {
+			src.minimal = true
+			if !hlib.Thorough() {
+				src.lays = layouts()[:1]
+			}
+		}
 	}
 	e.o.Count("pool-prim:" + fname)
 	e.primOps(src, hlib.NewRng(seed, "pool/"+api+"/"+pk.Name))
